@@ -244,7 +244,7 @@ func c12(c *ctx) {
 	for _, pn := range names {
 		msg := pcs[pn]
 		for _, level := range []int{-2, 0, 1, 6, 9} {
-			for pat := 0; pat < 8; pat++ {
+			for pat := 0; pat < 10; pat++ {
 				if !c.thorough && len(msg) > 50000 && pat > 1 && pat < 5 && level != 9 {
 					continue
 				}
@@ -285,8 +285,18 @@ func c12(c *ctx) {
 					dest.Reset()
 					w.Reset(dest)
 				}
+				if pat == 8 || pat == 9 { // reused after a message that was ended by Flush() alone and shares its content
+					w.Write(msg)
+					w.Write([]byte("the earlier message shares its content with the next one"))
+					w.Flush()
+					if pat == 9 {
+						w.Flush()
+					}
+					dest.Reset()
+					w.Reset(dest)
+				}
 				switch pat {
-				case 0, 5, 7:
+				case 0, 5, 7, 8, 9:
 					step(len(msg))
 				case 1, 6:
 					for sofar < len(msg) {
